@@ -322,6 +322,12 @@ impl Ctx {
             if announced > n {
                 self.viol("C03", "oversized-chunk", format!("{what} on thread {tid} returned {announced} > {n} elements"));
             }
+            if b + announced > self.cfg.len || seen.len() > announced {
+                self.viol("C03", "chunk-beyond-source", format!("{what} on thread {tid} returned a chunk at {b} announcing {announced} and yielding {} elements: not a run of consecutive source positions (the source has {} elements)", seen.len(), self.cfg.len));
+            }
+            if seen.iter().any(|s| self.pos_from_key(s.key).map_or(true, |p| p >= self.cfg.len)) {
+                self.viol("C03", "chunk-foreign-element", format!("{what} on thread {tid} returned a chunk at {b} containing elements that are not elements of the source"));
+            }
             if announced < n && b + announced != self.cfg.len && b + announced <= self.cfg.len {
                 self.viol("C03", "short-chunk", format!("{what} on thread {tid} returned {announced} < {n} elements starting at {b} although the source has {} elements", self.cfg.len));
             }
